@@ -63,7 +63,9 @@ pub fn compare(r: &mut Rep, program: usize, base: &str, mfs: Vec<MetricFamily>, 
         match got.get(labels) {
             None => r.fail(program, "declared-child-missing", format!("no child with labels {:?} in the backing vector; children: {:?}", labels, got.keys().collect::<Vec<_>>())),
             Some((gs, gc)) => {
-                if gs != sum || (base == "Histogram" && gc != count) {
+                // histograms may hold timed-closure observations of a few nanoseconds each: amounts are integers >= 1
+                let sum_ok = if base == "Histogram" { (gs - sum).abs() < 0.5 } else { gs == sum };
+                if !sum_ok || (base == "Histogram" && gc != count) {
                     r.fail(program, "accessor-addresses-wrong-child", format!("child {:?} holds {} ({} observations) but the updates made through the accessors declared for it total {} ({} updates)", labels, gs, gc, sum, count));
                 }
             }
